@@ -2433,10 +2433,6 @@ func (s *swamp) destroy(onlyIfEmpty bool) {
 	s.destroyed = true
 	s.closeMutex.Unlock()
 
-	// StopSendingInformation/StopSendingEvents are pure atomic stores; they
-	// do not touch the treasure map, so they are safe to call without s.mu.
-	s.StopSendingInformation()
-	s.StopSendingEvents()
 
 	// Wait for all active vigils to drain BEFORE acquiring s.mu.
 	//
@@ -2464,6 +2460,13 @@ func (s *swamp) destroy(onlyIfEmpty bool) {
 		s.closeClosing()
 		return
 	}
+
+	// StopSendingInformation/StopSendingEvents are pure atomic stores; they
+	// do not touch the treasure map, so they are safe to call without s.mu.
+	// Not before the drain: requests that are still in flight commit changes whose events have to go out, and when
+	// the swamp turns out not to be empty (above) it lives on in the file with those records.
+	s.StopSendingInformation()
+	s.StopSendingEvents()
 
 	slog.Debug("Destroy: vigils closed", "swamp", swampName)
 
